@@ -132,6 +132,10 @@ def check_caps(ops, cfg):
             if op.kind == "ok":
                 v.append(("caps.after-success", f"invocation after success {op}"))
             if op.failed:
+                if op.klass == "?":
+                    # a timed-out attempt whose TimeoutError was never shown to the classifier:
+                    # judged with the class the classifier would have given
+                    op.klass = cfg["timeout_class"]
                 if op.klass in NONRETRY:
                     v.append(("caps.nonretryable",
                               f"operation invoked again after {op.label} (attempt {op.n})"))
